@@ -8,6 +8,11 @@ class MergeFail(Exception):
     pass
 
 
+# set while a contract / spec expression is evaluated: values there are never mutated, so two list objects may be
+# merged into a fresh list *value*
+PURE_CONTEXT = [False]
+
+
 class State:
     def __init__(self):
         self.frames = {}        # fid -> dict name -> value
@@ -256,6 +261,10 @@ def merge_value(c, a, b, sa, sb, out):
         return tuple(merge_value(c, x, y, sa, sb, out) for x, y in zip(a, b))
     if isinstance(a, Ref) and isinstance(b, Ref):
         pa, pb = sa.get(a), sb.get(b)
+        if (a.oid in out.heap or b.oid in out.heap) and not PURE_CONTEXT[0]:
+            # two different objects that already existed before the branches: merging them into a copy would lose aliasing
+            # (a later mutation through the merged reference must reach the original) -- keep the paths separate
+            raise MergeFail('references to distinct pre-existing objects')
         if isinstance(pa, LObj) and isinstance(pb, LObj):
             ta, tb = type_of(a, sa), type_of(b, sb)
             if ta is None and pa.items is not None and len(pa.items) == 0:
